@@ -394,6 +394,109 @@ def fixed_reset(tier):
     return out
 
 
+# ---------------------------------------------------------------- resetmap: real PeerIdRegistry + ConnectionIdMapper
+def _tok_bytes(t):
+    return list(t.to_bytes(16, "big"))
+
+
+def gen_resetmap(rng):
+    c = []
+    conns = []          # per connection: dict(open, nseq, fresh, toks)
+    pool = [rng.randrange(1, 1 << 100) for _ in range(4)] + [1, (1 << 120) + 5]
+    allt = []
+    for _ in range(rng.choice([3, 6, 12, 25])):
+        r = rng.random()
+        openc = [i for i, k in enumerate(conns) if k["open"]]
+        if not conns or r < 0.15:
+            flag = rng.random() < 0.8
+            tok = rng.choice(pool) if rng.random() < 0.3 else rng.randrange(1 << 120)
+            c += [0, 1 if flag else 0, tok]
+            conns.append({"open": True, "nseq": 0, "toks": [tok] if flag else []})
+            if flag:
+                allt.append(tok)
+        elif r < 0.40 and openc:
+            i = rng.choice(openc)
+            k = conns[i]
+            if k["nseq"] >= 2:
+                continue
+            tok = rng.choice(pool) if rng.random() < 0.3 else rng.randrange(1 << 120)
+            if tok in k["toks"]:
+                continue
+            k["nseq"] += 1
+            k["toks"].append(tok)
+            allt.append(tok)
+            c += [1, i, k["nseq"], tok]
+        elif r < 0.55 and openc:
+            c += [2, rng.choice(openc)]
+        elif r < 0.62 and openc:
+            i = rng.choice(openc)
+            conns[i]["open"] = False
+            c += [3, i]
+        else:
+            pre = _rbytes(rng, rng.choice([0, 1, 7, 30]))
+            q = rng.random()
+            if allt and q < 0.55:
+                d = pre + _tok_bytes(rng.choice(allt))
+            elif allt and q < 0.75:
+                t = _tok_bytes(rng.choice(allt))
+                t[rng.randrange(16)] ^= 1 << rng.randrange(8)
+                d = pre + t
+            elif allt and q < 0.85:
+                d = pre + _tok_bytes(rng.choice(allt)) + _rbytes(rng, rng.choice([1, 3]))
+            else:
+                d = _rbytes(rng, rng.choice([0, 5, 15, 16, 17, 33]))
+            c += [4, len(d)] + d
+    return c
+
+
+def fixed_resetmap(tier):
+    t1, t2, t3 = 0x0102030405060708090a0b0c0d0e0f10, 77, (1 << 126) + 9
+    d = lambda t: [4, 21, 0x40, 1, 2, 3, 4] + _tok_bytes(t)
+    return [
+        [0, 1, t1] + d(t1) + d(t1),                                   # match once, then the entry is gone
+        [0, 1, t1, 1, 0, 1, t2] + d(t2) + [2, 0] + d(t2),             # a token counts only once its id is in use
+        [0, 1, t1, 1, 0, 1, t2, 2, 0, 3, 0] + d(t1) + d(t2),          # dropped connection: tokens forgotten
+        [0, 1, t1, 0, 1, t3] + d(t3) + d(t1),                         # two connections
+        [0, 1, t1, 0, 1, t1] + d(t1) + d(t1),                         # the same token registered by two connections
+        [0, 0, t1] + d(t1),                                           # no token in the transport parameters
+        [0, 1, t1, 4, 15] + _tok_bytes(t1)[1:],                       # shorter than a token
+    ]
+
+
+def valid_resetmap(c):
+    i, conns = 0, []
+    while i < len(c):
+        op = c[i]
+        if op == 0 and i + 3 <= len(c):
+            if not (0 <= c[i + 2] < (1 << 127)):
+                return False
+            conns.append({"open": True, "nseq": 0, "toks": [c[i + 2]] if c[i + 1] else []})
+            i += 3
+        elif op == 1 and i + 4 <= len(c):
+            k, seq, tok = c[i + 1], c[i + 2], c[i + 3]
+            if not (0 <= k < len(conns)) or not conns[k]["open"] or not (0 <= tok < (1 << 127)):
+                return False
+            if seq != conns[k]["nseq"] + 1 or seq > 2 or tok in conns[k]["toks"]:
+                return False
+            conns[k]["nseq"] = seq
+            conns[k]["toks"].append(tok)
+            i += 4
+        elif op in (2, 3) and i + 2 <= len(c):
+            k = c[i + 1]
+            if not (0 <= k < len(conns)) or not conns[k]["open"]:
+                return False
+            if op == 3:
+                conns[k]["open"] = False
+            i += 2
+        elif op == 4 and i + 2 <= len(c) and 0 <= c[i + 1] and i + 2 + c[i + 1] <= len(c):
+            if any(not (0 <= b <= 255) for b in c[i + 2:i + 2 + c[i + 1]]):
+                return False
+            i += 2 + c[i + 1]
+        else:
+            return False
+    return len(conns) <= 12
+
+
 # ---------------------------------------------------------------------------------------------
 registry.register("C06", {
     "gen": ["C06"],
@@ -433,6 +536,11 @@ registry.register("C06", {
          "valid": lambda c: len(c) >= 1 and 0 <= c[0] <= 8 and len(c) >= 1 + 16 * c[0] and all(0 <= v <= 255 for v in c[1:]),
          "nontrivial": lambda case, out: case[0] > 0 and len(case) - 1 - 16 * case[0] >= 16,
          "histogram": lambda cases, outs: {"matched": sum(1 for o in outs if o.strip() != "0"), "none": sum(1 for o in outs if o.strip() == "0")}},
+        {"name": "resetmap", "harness": ("h_transport", "C06r"), "gen": gen_resetmap, "fixed": fixed_resetmap,
+         "quick": 20000, "thorough": 500000, "valid": valid_resetmap,
+         "nontrivial": lambda case, out: any(v > 0 for v in out) and 4 in case,
+         "histogram": lambda cases, outs: {"datagrams_matched": sum(1 for o in outs for v in o.split() if v not in ("0", "9", "-1")),
+                                           "cases": len(cases)}},
     ],
     "rule": "hp: all 256 first bytes x 8 first-byte masks x header lengths, exact sample-bound lengths, seeded random "
             "(space, header length 1..40, 5 mask bytes, packet bytes around the bound hlen+4+16); a case is non-trivial "
@@ -443,7 +551,10 @@ registry.register("C06", {
             "packet shapes EVERY single-byte mutation at EVERY position and every truncation before and after the genuine delivery, "
             "window edges 127..130, seeded random interleavings of genuine deliveries, replays, byte flips, truncations, splices "
             "(header of one packet + body of another), random datagrams and packet-number reuse by the peer; reset: every single-bit "
-            "change of a registered token, tokens not at the end, short datagrams, duplicate tokens",
+            "change of a registered token, tokens not at the end, short datagrams, duplicate tokens; resetmap (real PeerIdRegistry + "
+            "ConnectionIdMapper through the hook): connections opened with/without a transport-parameter token, NEW_CONNECTION_ID, ids taken "
+            "into use, connections dropped, datagrams ending in a registered / one-bit-off / misplaced token, the same token on two connections; "
+            "rxpipe additionally: integrity limits 1..10 through the real KeySet (failure counter, AEAD_LIMIT_REACHED)",
     "assumptions": [
         "ideal AEAD (open succeeds only on what seal produced) is a hypothesis of the rxpipe theorems, not proved",
     ],
